@@ -59,6 +59,14 @@ CLAIMED["C13"] = dict(level="model_checking", technique="TLA+ rule catalogue (Sc
                       text="2 well-formed base schemas x every mutation of the catalogue at every applicable position: verdict, offender named by the error, and read-back of accepted documents must agree with SchemaRules!Violations / Loader!LoadResult (TLC also checks that every mutation is refused by the specification and every base accepted)")
 CLAIMED["C17"] = dict(level="model_checking", technique="TLA+ introspection view (Introspect.tla) computed by TLC for every schema reached by the loader state machine; full introspection request executed on real roots of three kinds and compared", note=SCHEMA_NOTE, design="DESIGN.md §6 C17",
                       text="for every accepted schema of MCRules (bases and valid variants) and of the arrangements of MCArrange: the full introspection response with includeDeprecated true/false on roots served by reflection, a Resolver object and an installed root resolver must equal Introspect!Intro; __type on an unknown name is null")
+COERCE_TECH = ("TLA+ coercion specification (Coerce.tla: the property S and the implementation-shaped design M with named deviations; TLC checks M({}) refines S) "
+               "enumerated by TLC over named numeric points x Go kinds x type expressions (MCCoerce.tla), every case executed on the real code; random cases recorded and judged by CoerceJudge.tla")
+COERCE_NOTE = ("Trusted: TLC, the harness' tables mapping named points to Go values of every kind (cross-checked at start-up against the tables in the spec), capturing resolvers. "
+               "Numbers are a finite lattice of named boundary points; type expressions up to wrapper depth 3 (4 in the random direction).")
+CLAIMED["C04"] = dict(level="model_checking", technique=COERCE_TECH, note=COERCE_NOTE, design="DESIGN.md §6 C04",
+                      text="(type expression) x (value trees over 24 named numeric points, strings, symbols, null) x (literal / variable of each Go kind / variable default / nested in list or input object): the arguments the capturing resolver receives are compared by Go kind and value with Coerce!CoerceIn, or non-invocation plus the error entry when the specification rejects")
+CLAIMED["C05"] = dict(level="model_checking", technique=COERCE_TECH, note=COERCE_NOTE, design="DESIGN.md §6 C05",
+                      text="(declared leaf type incl. lists and typed slices) x (Go value kind x named point, numeric and non-numeric strings, wrong kinds, nil pointers, Symbol, time.Time): response data after WriteJSONValue + encoding/json must have the shape Coerce!CoerceOut prescribes (null plus one error where it cannot be represented)")
 
 NOT_YET = {
 }
